@@ -48,7 +48,7 @@ class BigMapType(MapType, prim='big_map', args_len=2):
             return f'{{{", ".join(elements)}}}'
 
     def __deepcopy__(self, memodict):
-        res = self.duplicate()
+        res = self.clone()
         # when the context is copied in the same operation (REPL backup), stay bound to its copy
         res.context = memodict.get(id(self.context), self.context)
         return res
@@ -235,6 +235,10 @@ class BigMapType(MapType, prim='big_map', args_len=2):
         return forge_script_expr(key.pack(legacy=True))
 
     def duplicate(self):
+        assert self.is_duplicable(), f'{self.prim} is not duplicable'
+        return self.clone()
+
+    def clone(self):
         res = type(self)(
             items=deepcopy(self.items),
             ptr=self.ptr,
